@@ -23,6 +23,11 @@ def snap_obj(o):
         d["children"] = [id(c) for c in o._children]
         d["sources"] = [id(c) for c in o._sources]
         d["sensors"] = [id(c) for c in o._sensors]
+    # every other instance attribute with a plain value (a failed call must not leave notes on the object: caches, flags, counters)
+    for a, v in sorted(vars(o).items()):
+        if a not in d and a.lstrip("_") not in ("style", "style_kwargs", "parent", "position", "orientation", "field_func") and isinstance(v, (tuple, str, int, float, bool, type(None), frozenset)):
+            d["attr:" + a] = repr(v)
+    d["attr-names"] = sorted(a for a in vars(o) if a.lstrip("_") not in ("style", "style_kwargs"))
     # observable style values (reading obj.style materialises the lazily created style object; that
     # is not a change of any style value, so the snapshot reads through the public attribute)
     d["style"] = repr(o.style.as_dict())
@@ -38,13 +43,14 @@ def all_objs(xs):
     return out
 
 
-def Faulty(at, kind):
-    """custom field function with a fault schedule: at its i-th invocation raise / return None / wrong shape"""
+def Faulty(at, kind, once=False):
+    """custom field function with a fault schedule: at its i-th invocation (`once`) / from its i-th invocation on: raise / return
+    None / wrong shape"""
     state = {"calls": 0}
 
     def ff(field, observers):
         state["calls"] += 1
-        if state["calls"] >= at + 3:  # two validation calls happen at assignment
+        if (state["calls"] == at + 3) if once else (state["calls"] >= at + 3):  # two validation calls happen at assignment
             if kind == "raise":
                 raise RuntimeError("injected fault")
             if kind == "none":
@@ -86,7 +92,8 @@ def sweep(ctx, n):
         elif fault == "missing-excitation":
             srcs.append(magpy.current.Circle(diameter=1))
         elif fault.startswith("custom-") and fault not in ("custom-no-H", "custom-no-func"):
-            srcs.append(magpy.misc.CustomSource(field_func=Faulty(rng.choice([0, 0, 1]), fault.split("-")[1])))
+            once = rng.random() < 0.5
+            srcs.append(magpy.misc.CustomSource(field_func=Faulty(0 if once else rng.choice([0, 0, 1]), fault.split("-")[1], once=once)))
             field = rng.choice(["B", "H"])
         elif fault == "custom-no-func":
             srcs.append(magpy.misc.CustomSource(position=nps.uniform(-1, 1, (rng.choice([1, 2]), 3))))
@@ -150,6 +157,19 @@ def sweep(ctx, n):
                           "desc": f"get{field} changed {sorted(set(changed))[:4]} (call {'raised ' + err if err else 'returned'})",
                           "replay": {"fault": fault, "field": field, "error": err, "changed": sorted(set(changed))[:8]}})
             continue
+        if err is not None and fault.startswith("custom-") and fault not in ("custom-no-H", "custom-no-func") and "once" in dir() and once:
+            # the cause of the failure is gone (the field function misbehaved at one invocation only): calling again gives the field
+            try:
+                with warnings.catch_warnings():
+                    warnings.simplefilter("ignore")
+                    again = get(srcs, obs_in, **kw)
+                    again2 = get(srcs, obs_in, **kw)
+                same = np.array_equal(np.asarray(again), np.asarray(again2), equal_nan=True)
+                if not same:
+                    fails.append({"key": f"second-call-differs:{fault}", "desc": "after a failed call, two further calls returned different results", "replay": {"fault": fault, "field": field}})
+            except Exception as e2:  # noqa: BLE001
+                fails.append({"key": f"failed-call-remembered:{fault}", "desc": f"get{field} failed once because a custom field function misbehaved at that invocation; the repeated call raises {type(e2).__name__} although the function now answers",
+                              "replay": {"fault": fault, "field": field, "first_error": err, "second_error": type(e2).__name__}})
         if err is None and res is not None and not fault.startswith("custom-"):
             with warnings.catch_warnings():
                 warnings.simplefilter("ignore")
